@@ -26,14 +26,14 @@ theorem childNegotiationReq_ike_busy (request : Msg) (s : HSt) (sa : List Propos
 
 theorem childRekeyPrelude_unknown (request : Msg) (sa : List Proposal) (tsi tsr : List TS) (s : HSt) (proto : Nat) (spi d : Bytes)
     (tl : List (Nat × Bytes × Bytes)) (hn : getNotifies request nREKEY_SA true = (proto, spi, d) :: tl)
-    (hk : getKid s.me.ext.kids spi = none) :
+    (hk : getKidOut s.me.ext.kids spi = none) :
     childRekeyPrelude request sa tsi tsr s = (.error (excChildNotFound proto spi), s) := by
   unfold childRekeyPrelude
   simp only [HM.bind_def, getMe, hn, hk, HM.raise]
 
 theorem childRekeyPrelude_busy (request : Msg) (sa : List Proposal) (tsi tsr : List TS) (s : HSt) (proto : Nat) (spi d : Bytes)
     (tl : List (Nat × Bytes × Bytes)) (old : Child) (hn : getNotifies request nREKEY_SA true = (proto, spi, d) :: tl)
-    (hk : getKid s.me.ext.kids spi = some old)
+    (hk : getKidOut s.me.ext.kids spi = some old)
     (hb : (s.me.core.st = stDEL_CHILD_REQ_SENT ∧ s.me.ext.deleting.map (childEq old) = some true) ∨
           (s.me.core.st = stREK_CHILD_REQ_SENT ∧ s.me.ext.rekeying.map (childEq old) = some true)) :
     childRekeyPrelude request sa tsi tsr s = (.error excTemporaryFailure, s) := by
